@@ -378,6 +378,22 @@ def d18_6(ctx):
     bitval = [n for n in walk(f) if isinstance(n, ast.Assign) and atom_name(n.targets[0]) == "_value" and isinstance(n.value, ast.IfExp) and atom_name(n.value.test) == "value"]
     good = len(bitval) == 1 and atom_name(bitval[0].value.body) == "bit_mask" and ctx.folder.eval(bitval[0].value.orelse, fn.module) == b"\x00\x00"
     ctx.check(good, ckey(fn, "bit-data"), bitval[0] if bitval else f, "bit data = mask when true, 0000 when false", "a bit write does not send the mask / zeros as data (other bits of the word change)")
+    # the full-word path (mask FFFF + packed value) inside a bit-field write is for timer/counter PRE/ACC only
+    from ..boolexpr import NotBoolean, equivalent, make_fold, to_formula, show as fshow
+    wp = [n for n in walk(f) if isinstance(n, ast.If) and any(isinstance(s_, ast.Assign) and atom_name(s_.targets[0]) == "bit_mask" and ctx.folder.eval(s_.value, fn.module) == b"\xff\xff" for s_ in n.body)]
+    ok = False
+    facts = {}
+    if len(wp) == 1:
+        try:
+            got = to_formula(wp[0].test, make_fold(ctx.folder, fn.module))
+            ct = ctx.spec("pccc")["timer_counter_words"]
+            ft = "tag['file_type']"
+            want = ("and", [("or", [("atom", (ft, "==", "C")), ("atom", (ft, "==", "T"))]), ("or", [("atom", ("bit_position", "==", ct["PRE"])), ("atom", ("bit_position", "==", ct["ACC"]))])])
+            ok, cex = equivalent(got, want)
+            facts = {"condition": fshow(got), "counterexample": cex}
+        except NotBoolean as err:
+            facts = {"condition": src(wp[0].test), "error": str(err)}
+    ctx.check(ok, ckey(fn, "word-path"), wp[0] if wp else f, "whole-word masked write only for T/C files with sub-element PRE or ACC", f"the condition selecting the whole-word write (mask FFFF) is not `file type in (T, C) and sub-element in (PRE, ACC)`: {facts} - a bit write outside it overwrites the whole word", **{k: str(v) for k, v in facts.items()})
     bp = [n for n in walk(f) if isinstance(n, ast.Assign) and atom_name(n.targets[0]) == "bit_position"]
     good = len(bp) == 1 and "tag.get('sub_element')" in src(bp[0].value).replace('"', "'") and "bit_field" in src(bp[0].value)
     ctx.check(good, ckey(fn, "bit-position"), bp[0] if bp else f, "bit position comes from the record's sub_element", "bit position is not taken from the address record's sub_element")
@@ -429,6 +445,9 @@ def d18_7(ctx):
                     found[k] = (lo.const if lo and lo.is_const() else None, repr(hi))
                     break
             # only first-level
+    tc = [n for n in walk(pr.node) if isinstance(n, ast.If) and "file_type" in src(n.test) and any(isinstance(x, ast.If) and "bit_position" in src(x.test) for x in n.body)]
+    tc_ok = len(tc) == 1 and isinstance(tc[0].test, ast.Compare) and isinstance(tc[0].test.ops[0], ast.In) and set(ctx.folder.eval(tc[0].test.comparators[0], pr.module) or ()) == {"T", "C"}
+    ctx.check(tc_ok, ckey(pr, "pre-acc-files"), tc[0] if tc else pr.node, "PRE/ACC words are extracted only for T and C files", "the PRE/ACC word extraction is no longer restricted to timer/counter files")
     want = {f"PCCC_CT['{k}']": 2 * v for k, v in sp["timer_counter_words"].items()}
     good = all(found.get(k, (None,))[0] == v for k, v in want.items()) and isinstance(ct, dict)
     ctx.check(good, ckey(pr, "pre-acc"), pr.node, "PRE at byte 2, ACC at byte 4 of the element", f"PRE/ACC are read at {found}; words 1 and 2 of the element are bytes 2 and 4", found={k: list(v) for k, v in found.items()})
